@@ -199,35 +199,50 @@ def _dft_n(a, axes, inverse, s=None, norm=None):
     return out if sc is None else (out * sc).view(SA)
 
 
+def _fft_kw(fn):
+    """the transforms accept NumPy 2's out= and scipy.fft's overwrite_x= / workers= / plan= (in-place operation is an
+    optimisation of the real libraries: here the result is written into out= when one is given)"""
+    import functools
+
+    @functools.wraps(fn)
+    def wrapper(*a, out=None, overwrite_x=False, workers=None, plan=None, **kw):
+        r = fn(*a, **kw)
+        if out is not None:
+            out[...] = r
+            return out
+        return r
+    return staticmethod(wrapper)
+
+
 class FFT:
     fftshift = staticmethod(numpy.fft.fftshift)
     ifftshift = staticmethod(numpy.fft.ifftshift)
 
-    @staticmethod
+    @_fft_kw
     def fft(a, n=None, axis=-1, norm=None):
         return _dft_n(a, (axis,), False, (n,), norm)
 
-    @staticmethod
+    @_fft_kw
     def ifft(a, n=None, axis=-1, norm=None):
         return _dft_n(a, (axis,), True, (n,), norm)
 
-    @staticmethod
+    @_fft_kw
     def fft2(a, s=None, axes=(-2, -1), norm=None):
         return _dft_n(a, axes, False, s, norm)
 
-    @staticmethod
+    @_fft_kw
     def ifft2(a, s=None, axes=(-2, -1), norm=None):
         return _dft_n(a, axes, True, s, norm)
 
-    @staticmethod
+    @_fft_kw
     def fftn(a, s=None, axes=None, norm=None):
         return _dft_n(a, axes, False, s, norm)
 
-    @staticmethod
+    @_fft_kw
     def ifftn(a, s=None, axes=None, norm=None):
         return _dft_n(a, axes, True, s, norm)
 
-    @staticmethod
+    @_fft_kw
     def rfftn(a, s=None, axes=None, norm=None):
         a = obj(a)
         if axes is None:
@@ -242,7 +257,7 @@ class FFT:
         sc = _norm_scale(norm, tot, False)
         return out if sc is None else (out * sc).view(SA)
 
-    @staticmethod
+    @_fft_kw
     def irfftn(a, s=None, axes=None, norm=None):
         a = obj(a)
         if axes is None:
@@ -269,7 +284,7 @@ class FFT:
         n = int(n)
         return obj(numpy.array([Sym(v) / (Sym.lift(d) * n) for v in range(n // 2 + 1)], dtype=object))
 
-    @staticmethod
+    @_fft_kw
     def rfft(a, n=None, axis=-1, norm=None):
         full = dft_axis(a, axis, False, n)
         N = full.shape[axis]
@@ -279,7 +294,7 @@ class FFT:
         sc = _norm_scale(norm, N, False)
         return out if sc is None else (out * sc).view(SA)
 
-    @staticmethod
+    @_fft_kw
     def irfft(a, n=None, axis=-1, norm=None):
         """C2R: Hermitian extension of the half spectrum, real part (imag of DC/Nyquist dropped)"""
         _norm_arg = norm
@@ -308,11 +323,11 @@ class FFT:
         sc = _norm_scale(_norm_arg, N, True)
         return res if sc is None else (res * sc).view(SA)
 
-    @staticmethod
+    @_fft_kw
     def rfft2(a, s=None, axes=(-2, -1), norm=None):
         return FFT.rfftn(a, s, axes, norm)
 
-    @staticmethod
+    @_fft_kw
     def irfft2(a, s=None, axes=(-2, -1), norm=None):
         return FFT.irfftn(a, s, axes, norm)
 
@@ -651,8 +666,66 @@ class Stream:
         return self._draws(size)
 
 
+class _SeedSeq:
+    """numpy.random.SeedSequence / BitGenerator stand-ins: they only carry the entropy term that selects the stream"""
+
+    def __init__(self, entropy=None, **kw):
+        if isinstance(entropy, _SeedSeq):
+            entropy = entropy.entropy
+        self.entropy = entropy
+        self.fresh = Stream.fresh("seedseq") if entropy is None else None
+
+    def stream(self):
+        if self.entropy is None:
+            return self.fresh
+        e = self.entropy
+        if isinstance(e, (list, tuple, numpy.ndarray)):
+            # a sequence of integers: the stream is a function of all of them (hash-like uninterpreted combination)
+            f = z3.Function("seedseq%d" % len(e), *([z3.RealSort()] * (len(e) + 1)))
+            return Stream(f(*[z(Sym.lift(x).re) for x in e]))
+        return Stream(z(Sym.lift(e).re))
+
+
+class _BitGen(_SeedSeq):
+    pass
+
+
+class _GeneratorMeta(type):
+    def __instancecheck__(cls, inst):
+        return isinstance(inst, Stream)
+
+    def __call__(cls, bit_generator=None):
+        if isinstance(bit_generator, Stream):
+            return bit_generator
+        if isinstance(bit_generator, _SeedSeq):
+            return bit_generator.stream()
+        return _SeedSeq(bit_generator).stream()
+
+
+class _GeneratorType(metaclass=_GeneratorMeta):
+    """numpy.random.Generator: isinstance() recognises the stream model; Generator(bit_generator) selects the stream
+    of the bit generator's seed (default_rng(seed) == Generator(PCG64(seed)))"""
+
+
+class _BitGenMeta(type):
+    def __instancecheck__(cls, inst):
+        return isinstance(inst, _BitGen)
+
+
+class _BitGeneratorType(metaclass=_BitGenMeta):
+    pass
+
+
 class Random:
     """stands for numpy.random"""
+    Generator = _GeneratorType
+    BitGenerator = _BitGeneratorType
+    SeedSequence = _SeedSeq
+    PCG64 = _BitGen
+    PCG64DXSM = _BitGen
+    Philox = _BitGen
+    SFC64 = _BitGen
+    MT19937 = _BitGen
 
     def __init__(self):
         self.glob = Stream(z3.Real("stream!global!init"))
@@ -662,6 +735,10 @@ class Random:
     def default_rng(self, seed=None):
         if isinstance(seed, Stream):
             return seed
+        if isinstance(seed, _SeedSeq):
+            return seed.stream()
+        if isinstance(seed, (list, tuple)) or isinstance(seed, numpy.ndarray) and seed.ndim:
+            return _SeedSeq(seed).stream()
         if seed is None:
             return Stream.fresh()
         s = Sym.lift(seed)
@@ -703,6 +780,34 @@ class Random:
 
 
 # ------------------------------------------------------------------ multiprocessing
+class _AsyncHandle:
+    def __init__(self, pool, fn, args, kwds, callback):
+        self.pool, self.fn, self.args, self.kwds, self.callback = pool, fn, args, kwds, callback
+        self.done = False
+        self.value = None
+
+    def _run(self):
+        if not self.done:
+            self.value = self.fn(*self.args, **self.kwds)
+            self.done = True
+            if self.callback is not None:
+                self.callback(self.value)
+
+    def get(self, timeout=None):
+        if not self.done:
+            self.pool._run_pending()
+        return self.value
+
+    def wait(self, timeout=None):
+        self.get()
+
+    def ready(self):
+        return self.done
+
+    def successful(self):
+        return True
+
+
 class PoolStub:
     """in-process Pool: tasks executed in a (forked) permutation, results per the method contract"""
     executed = []
@@ -769,14 +874,27 @@ class PoolStub:
     def starmap(self, fn, iterable, chunksize=None):
         return self.map(lambda a: fn(*a), iterable)
 
-    def apply_async(self, fn, args=(), kwds=None, callback=None):
-        raise NotImplementedError("apply_async not modelled")
+    def apply_async(self, fn, args=(), kwds=None, callback=None, error_callback=None):
+        """tasks submitted one by one: each runs when its result is first awaited or when the pool is closed/joined; the
+        execution ORDER of the pending tasks is forked like for map (documented contract: get() returns fn(*args))"""
+        h = _AsyncHandle(self, fn, tuple(args), dict(kwds or {}), callback)
+        self.__dict__.setdefault("_pending", []).append(h)
+        return h
+
+    def _run_pending(self):
+        pend = [h for h in self.__dict__.get("_pending", []) if not h.done]
+        if not pend:
+            return
+        order = self._order(len(pend))
+        for i in order:
+            pend[i]._run()
+        PoolStub.executed.append(("apply_async", order))
 
     def close(self):
         pass
 
     def join(self):
-        pass
+        self._run_pending()
 
     def terminate(self):
         pass
